@@ -3,7 +3,7 @@ from .common import *
 from . import gf
 
 
-def gen_roundtrips(rng, tier, n_small, n_edge, n_medium, n_large, engines=None, codecs=None, patterns=None, probes=False):
+def gen_roundtrips(rng, tier, n_small, n_edge, n_medium, n_large, engines=None, codecs=None, patterns=None, probes=False, reuse_frac=0.0):
     cases = []
     shapes = shape_stream(rng, n_small, n_edge, n_medium, n_large)
     for n, (K, R, cls) in enumerate(shapes):
@@ -18,7 +18,8 @@ def gen_roundtrips(rng, tier, n_small, n_edge, n_medium, n_large, engines=None, 
         sb = pick_sb(rng, cls, K, R)
         pat = rng.choice(patterns or PATTERNS)
         seed = rng.randint(1, 10 ** 6)
-        c = roundtrip_case('rt%d' % n, rng, codec, engine, K, R, sb, seed, pat, probes=probes)
+        c = roundtrip_case('rt%d' % n, rng, codec, engine, K, R, sb, seed, pat, probes=probes,
+                           reuse=(reuse_frac > 0 and rng.random() < reuse_frac))
         c.meta['cls'] = cls
         cases.append(c)
     return cases
@@ -26,7 +27,7 @@ def gen_roundtrips(rng, tier, n_small, n_edge, n_medium, n_large, engines=None, 
 
 def check_C01(v, tier, rng):
     q = tier == 'quick'
-    cases = gen_roundtrips(rng, tier, 150 if q else 1500, 120 if q else 1500, 40 if q else 400, 3 if q else 24)
+    cases = gen_roundtrips(rng, tier, 150 if q else 1500, 120 if q else 1500, 40 if q else 400, 3 if q else 24, reuse_frac=0.3)
     # every envelope corner at maximum loss (thorough) / two corners (quick)
     cs = corners()
     for n, (K, R) in enumerate(cs if not q else rng.sample(cs, 2)):
@@ -48,13 +49,16 @@ def check_C01(v, tier, rng):
         cases.append(Case('one%d' % n, ops, dict(codec='oneshot', engine='default', K=K, R=R, sb=sb, seed=seed,
                                                  given_o=sorted(os_), given_r=sorted(rs), cls='oneshot', pattern='oneshot')))
     w = [model_weight(c) for c in cases]
-    impl = run_cases('impl', cases, 'C01', weights=w)
+    poison = rng.randint(1, 2 ** 62)
+    v.extra['poison_seed'] = poison
+    impl = run_cases('impl', cases, 'C01', weights=w, poison=poison)
     model = run_cases('model', cases, 'C01', weights=w)
     for c in cases:
         m = c.meta
         nontriv = len(m['given_o']) < m['K']
         note_case(v, c, (m['K'], m['R'], m['codec'], m['engine'], m['sb'], tuple(m['given_o']), tuple(m['given_r'])) if nontriv else None)
         v.count('%s/%s/%s/%s/sb%s' % (m['cls'], m['codec'], m['engine'], m['pattern'], 'x64' if m['sb'] % 64 == 0 else 'odd'))
+        v.count('objects=%s' % ('reused' if m.get('reused') else 'fresh'))
         res = impl.get(c.id)
         if m['codec'] == 'oneshot':
             r = res[-1] if res else None
@@ -96,16 +100,22 @@ def check_C02(v, tier, rng):
         if cls == 'large':
             sb = 2
         seed = rng.randint(1, 10 ** 6)
-        ops = ['E.new %s %s %d %d %d' % (codec, engine, K, R, sb)] + ['E.add ' + orig_tok(seed, i, sb) for i in range(K)] + ['E.encode -']
-        meta = dict(codec=codec, engine=engine, K=K, R=R, sb=sb, seed=seed, cls=cls, enc_idx=len(ops) - 1)
-        if sb % 64 == 0 and cls != 'large' and rule_high(K, R) == (codec != 'low') and codec != 'low':
-            pass
+        reused = rng.random() < 0.3
+        if reused:
+            # the purity claim covers reused encoders: an earlier round in another configuration, then reset
+            ops = earlier_round(rng, codec, engine, both=False) + ['E.reset %d %d %d' % (K, R, sb)]
+        else:
+            ops = ['E.new %s %s %d %d %d' % (codec, engine, K, R, sb)]
+        ops += ['E.add ' + orig_tok(seed, i, sb) for i in range(K)] + ['E.encode -']
+        meta = dict(codec=codec, engine=engine, K=K, R=R, sb=sb, seed=seed, cls=cls, enc_idx=len(ops) - 1, reused=reused)
         if sb % 64 == 0 and K * sb < 2 ** 20:
             ops.append('rs16 %d %d %s' % (K, R, ','.join('@o%d' % i for i in range(K))))
             meta['rs16_idx'] = len(ops) - 1
         cases.append(Case('cf%d' % n, ops, meta))
     w = [model_weight(c) for c in cases]
-    impl = run_cases('impl', cases, 'C02', weights=w)
+    poison = rng.randint(1, 2 ** 62)
+    v.extra['poison_seed'] = poison
+    impl = run_cases('impl', cases, 'C02', weights=w, poison=poison)
     model = run_cases('model', cases, 'C02', weights=w)
     qs = cauchy_queries(cases, impl, rng, 24 if q else 64)
     orc = run_oracle(qs, 'C02')
@@ -114,6 +124,7 @@ def check_C02(v, tier, rng):
         res = impl.get(c.id) or []
         note_case(v, c, (m['K'], m['R'], m['codec'], m['engine'], m['sb'], m['seed']))
         v.count('%s/%s/%s/sb%s' % (m['cls'], m['codec'], m['engine'], 'x64' if m['sb'] % 64 == 0 else 'odd'))
+        v.count('objects=%s' % ('reused' if m.get('reused') else 'fresh'))
         pr = parse_round(res[m['enc_idx']]) if len(res) > m['enc_idx'] else None
         if pr is None:
             v.violation('encode failed for a valid configuration', {'kind': 'oracle', 'case': c.line()[:100000], 'meta': m, 'impl': res[-1:]})
